@@ -224,3 +224,40 @@ func VxC17Snapshot() {
 	}
 	vx.Observe("pages", uint64(len(sink.pgnos)))
 }
+
+// VxC17PageMap: the WAL reader's page map for frames next to the lock page
+// (512-byte pages: lock page 2097153): every committed frame's page is mapped to
+// the frame that holds it - in particular the last page below the 1 GiB mark and
+// the first one above it.
+func VxC17PageMap() {
+	lock := ltx.LockPgno(vxPageSize)
+	n := vx.Choose("frames", 1, 2)
+	g := vxGen{salt1: 11, salt2: 12}
+	size := lock + 2
+	for i := 0; i < n; i++ {
+		pg := lock - 2 + uint32(vx.Choose("pgd", 0, 4))
+		vx.Assume(pg != lock) // SQLite never writes the lock page
+		g.frames = append(g.frames, vxFrame{pgno: pg, commit: size, tag: vx.U64("tag")})
+	}
+	img := vxWALImageOf(vxPageSize, []vxGen{g})
+	rd, err := NewWALReader(&vxImage{b: img}, vxLogger())
+	vx.Assert("wal-opens", err == nil)
+	if err != nil {
+		return
+	}
+	m, _, commit, perr := rd.PageMap(context.Background())
+	vx.Assert("pagemap-no-error", perr == nil && commit == size)
+	fs := int64(WALFrameHeaderSize + vxPageSize)
+	for i, f := range g.frames {
+		last := true
+		for j := i + 1; j < n; j++ {
+			if g.frames[j].pgno == f.pgno {
+				last = false
+			}
+		}
+		if last {
+			off, ok := m[f.pgno]
+			vx.Assert("page-next-to-the-lock-page-is-mapped-to-its-frame", ok && off == WALHeaderSize+int64(i)*fs)
+		}
+	}
+}
